@@ -9,12 +9,15 @@ use mmtk::verif_hooks::Mmapper;
 /// `[MAPPED_LO, MAPPED_HI)` is the mapped address range (harness controlled; default: everything).
 pub static mut MAPPED_LO: usize = 0;
 pub static mut MAPPED_HI: usize = usize::MAX;
+/// log2 of the mapping granularity the stand-in reports (22 = chunk, as `ChunkStateMmapper`; a harness may lower it so
+/// that a mapped/unmapped boundary falls inside a small buffer).
+pub static mut LOG_GRANULARITY: u8 = 22;
 
 pub struct KMmapper;
 
 impl Mmapper for KMmapper {
     fn log_granularity(&self) -> u8 {
-        22 // LOG_BYTES_IN_CHUNK, as in ChunkStateMmapper::log_granularity
+        unsafe { LOG_GRANULARITY } // default 22 = LOG_BYTES_IN_CHUNK, as in ChunkStateMmapper::log_granularity
     }
     fn log_mappable_bytes(&self) -> u8 {
         47
